@@ -503,6 +503,14 @@ def st_AnnAssign(self, s, st):
     t = None
     if isinstance(s.target, ast.Name) and self.cur_contract and s.target.id in self.cur_contract.locals:
         t = self.cur_contract.locals[s.target.id]
+    if t is None and isinstance(s.target, ast.Attribute):
+        # `self.x: T = ...`: the declared field type of the class (the annotation may use aliases the engine does not know)
+        try:
+            obj, _ = self.ev1(s.target.value, st)
+            if isinstance(obj, Val) and isinstance(obj.t, Obj):
+                t = self.reg.field_type(obj.t.cls, s.target.attr)
+        except Untranslatable:
+            t = None
     if t is None:
         from .engine import ann_to_type
         t = ann_to_type(s.annotation, self.aliases)
